@@ -110,6 +110,22 @@ class SeriesVal:
         self.dtype_ = dtype
         self.extra_attrs = ()
         self.writes = []
+        self.pre = False
+        self.mutations = []
+        self.index_override = None
+
+    def pyvc_setattr(self, I, name, value):
+        if name == "index":
+            self.mutations.append(("index", None))
+            self.index_override = value
+            cur().event("data_write", self, "index")
+            return
+        if name == "name":
+            self.mutations.append(("name", None))
+            self.name = value
+            cur().event("data_write", self, "name")
+            return
+        raise Unsupported(f"Series.{name} = ...")
 
     # ---- construction ----------------------------------------------------------------
     @classmethod
@@ -129,6 +145,8 @@ class SeriesVal:
         s = cls(space, lambda i, vf=vf: _wrap(vf(i)), null, name=series_name, kind=kind)
         s.base_name = name
         s.vf = vf
+        s.pre = True
+        cur().ghost.setdefault("data_objects", []).append(s)
         # model projection: first few rows
         def proj(m, vf=vf, null=null, space=space):
             try:
@@ -539,6 +557,34 @@ def _value_error(msg="The truth value of a Series is ambiguous"):
 def install(I):
     import pandas as pd
     from pandera.api.pandas import types as ptypes
+    from pandera import validation_depth as VD
+    from pandera.config import ValidationScope
+
+    def validation_type(I, reason):
+        from ..interp import MappedReason
+
+        if isinstance(reason, MappedReason):
+            return SAny(name="scope")
+        if isinstance(reason, Sym):
+            I.raise_py(KeyError, reason)
+        try:
+            return VD.VALIDATION_DEPTH_ERROR_CODE_MAP[reason]
+        except KeyError:
+            I.raise_py(KeyError, reason)
+
+    I.models[id(VD.validation_type)] = validation_type
+
+    from pandera.errors import SchemaErrors
+
+    def schema_errors_init(I, self_obj, schema, schema_errors, data):
+        # SchemaErrors.__init__ under the contract 'stores its arguments; failure_cases_metadata does not raise'
+        # (the second half is an obligation of C06 on failure_cases_metadata, bounded for the pandas pipeline)
+        self_obj.attrs.update(schema=schema, schema_errors=schema_errors, data=data,
+                              error_counts=SAny(name="error_counts"), failure_cases=SAny(name="failure_cases"), message=SAny(name="message"))
+        self_obj.attrs["args"] = (self_obj.attrs["message"],)
+        return None
+
+    I.models[id(SchemaErrors.__init__)] = schema_errors_init
 
     cur_ghost_hook(I)
     M = I.models
@@ -682,9 +728,13 @@ class FrameVal:
         self._sel = sel or _always
         self.name = name
         self.cols = {}
+        self.pre = False
+        self.mutations = []
+        self.overrides = {}
+        self.index_override = None
 
     @classmethod
-    def fresh(cls, name, columns=None, kind="real"):
+    def fresh(cls, name, columns=None, kind="real", pre=True):
         n = core.sym_int(f"len({name})")
         cur().assume(n >= 0)
         core.register_model_var(f"len({name})", n.z)
@@ -707,12 +757,42 @@ class FrameVal:
                 hc[k] = core.sym_bool(f"{name}.has[{getattr(label, 'z', label)}]")
             return hc[k]
 
-        return cls(space, col, has, name=name)
+        f = cls(space, col, has, name=name)
+        f.pre = pre
+        cur().ghost.setdefault("data_objects", []).append(f)
+        return f
 
     def pyvc_class(self):
         import pandas as pd
 
         return pd.DataFrame
+
+    # ---- in-place mutation (S-lib mutator table: __setitem__, .index =, drop(inplace=True)) -------------
+    def pyvc_setitem(self, I, k, v):
+        self.mutations.append(("setitem", k))
+        key = k.z.get_id() if isinstance(k, Sym) else k
+        self.overrides[key] = v
+        cur().event("data_write", self, "setitem")
+
+    def pyvc_setattr(self, I, name, value):
+        if name == "index":
+            self.mutations.append(("index", None))
+            self.index_override = value
+            cur().event("data_write", self, "index")
+            return
+        if name == "columns":
+            self.mutations.append(("columns", None))
+            cur().event("data_write", self, "columns")
+            return
+        raise Unsupported(f"DataFrame.{name} = ...")
+
+    def drop(self, labels=None, axis=0, inplace=False, **kw):
+        if inplace:
+            self.mutations.append(("drop", labels))
+            cur().event("data_write", self, "drop")
+            return None
+        f = self.derive()
+        return f
 
     def sel(self, i):
         return z3.And(self.space.inb(i), self._sel(i))
@@ -722,6 +802,8 @@ class FrameVal:
 
     def derive(self, sel=None):
         f = FrameVal(self.space, self.col_fn, self.has_col, sel or self._sel, self.name)
+        f.overrides = dict(self.overrides)
+        f.index_override = self.index_override
         return f
 
     def pyvc_contains(self, I, x):
@@ -732,6 +814,10 @@ class FrameVal:
             return self.derive(sel=lambda i: z3.And(self._sel(i), _zb(k.at(i))))
         if isinstance(k, (list, tuple)):
             return self
+        key = k.z.get_id() if isinstance(k, Sym) else k
+        if key in self.overrides:
+            ov = self.overrides[key]
+            return ov
         if not I.truth(self.has_col(k)):
             I.raise_py(KeyError, k)
         c = self.col_fn(k)
